@@ -1,8 +1,8 @@
 (* Extraction of the instantiated model + the generated leaves.  ExtrOcamlBasic only. *)
 From Coq Require Import ZArith List Extraction ExtrOcamlBasic.
 From MomoCommon Require Import GenPrelude.
-From C17 Require Gen_Leaves SorterSearch SorterSort Instance Checker CodeGetter Gen_SelSort Gen_Radix Radix_Gen_Proofs Gen_RadixCycle Gen_RadixCount Gen_Group Gen_FindHash Gen_IsSorted.
+From C17 Require Gen_Leaves SorterSearch SorterSort Instance Checker CodeGetter Gen_SelSort Gen_Radix Radix_Gen_Proofs Gen_RadixCycle Gen_RadixCount Gen_Group Gen_FindHash Gen_IsSorted Gen_Searches.
 Separate Extraction
   Gen_Leaves.pvMultShift Gen_Leaves.pvGetStepCount Gen_Leaves.pvCompare
   Instance.FindHash Instance.Find Instance.GetBounds Instance.IsSorted
-  Instance.BinarySearch Instance.ExponentialSearch SorterSearch.pvFindOther SorterSearch.pvFindNext Checker.perm_check Instance.check_sort_output SorterSort.RadixSortG SorterSort.swap Instance.HashSort CodeGetter.code_of_signed CodeGetter.code_of_unsigned Gen_SelSort.pvSelectionSort Radix_Gen_Proofs.gen_code_signed Radix_Gen_Proofs.gen_code_unsigned Gen_Radix.pvGetRadix_u64 Gen_Radix.pvGetRadix_u8 Gen_RadixCycle.pvRadixSort_cycle Gen_RadixCount.pvRadixSort_count Gen_Group.pvGroup Gen_FindHash.pvFindHash Gen_IsSorted.pvIsSorted.
+  Instance.BinarySearch Instance.ExponentialSearch SorterSearch.pvFindOther SorterSearch.pvFindNext Checker.perm_check Instance.check_sort_output SorterSort.RadixSortG SorterSort.swap Instance.HashSort CodeGetter.code_of_signed CodeGetter.code_of_unsigned Gen_SelSort.pvSelectionSort Radix_Gen_Proofs.gen_code_signed Radix_Gen_Proofs.gen_code_unsigned Gen_Radix.pvGetRadix_u64 Gen_Radix.pvGetRadix_u8 Gen_RadixCycle.pvRadixSort_cycle Gen_RadixCount.pvRadixSort_count Gen_Group.pvGroup Gen_FindHash.pvFindHash Gen_IsSorted.pvIsSorted Gen_Searches.pvBinarySearch_loop0 Gen_Searches.pvExponentialSearch_loop0.
